@@ -24,3 +24,12 @@ Proof.
   intros v g pi pi' s s' Hd Hc Hv Hv'. unfold merge_all, ops_of. rewrite Hd, Hc.
   rewrite (vp_root g pi Hv), (vp_root g pi' Hv'). f_equal. apply declared_state_det; assumption.
 Qed.
+
+(* the listings (--list / --list-all, plain and --json) are functions of the merged table (Spec.v: listed):
+   for the declared-order, copying variant they are the same on every load *)
+Theorem listing_det : forall v g pi pi' s s' b, v_declared v = true -> v_inplace v = false -> valid_pi g pi -> valid_pi g pi' ->
+  listing_plain b (f_tasks (merge_all v g pi s)) = listing_plain b (f_tasks (merge_all v g pi' s'))
+  /\ listing_json b (f_tasks (merge_all v g pi s)) = listing_json b (f_tasks (merge_all v g pi' s')).
+Proof.
+  intros v g pi pi' s s' b Hd Hc Hv Hv'. rewrite (det_declared v g pi pi' s s' Hd Hc Hv Hv'). split; reflexivity.
+Qed.
